@@ -98,7 +98,7 @@ func mcWorlds(family string) []Scenario {
 		for _, m := range [][]string{{"auth", "totp", "sms", "recovery", "logout"}, {"auth", "remember", "totp", "sms", "recovery", "logout"}} {
 			for _, ea := range []bool{false, true} {
 				c := c0(m...)
-				c.EmailAuth = ea
+				c.EmailAuth, c.AppHandles2FA = ea, ea
 				add(c, seed2)
 			}
 		}
@@ -354,6 +354,8 @@ func mcEvents(family string, c sut.Config, o sut.Obs, iss map[string]int) []sut.
 			}
 		}
 		probeLogout()
+		ev(sut.Event{Act: "LoginPost", B: "b1", Pid: "o_pa_x", Pw: -1})
+		ev(sut.Event{Act: "LoginPost", B: "b1", Pid: "u1", Pw: -1})
 		if c.Has("lock") && o.Db["o_pa_x"].Ex {
 			ev(sut.Event{Act: "AdminLock", Pid: "o_pa_x"})
 		}
